@@ -371,6 +371,7 @@ def run(run):
     run.rule('R-OWN.scope', 'the ownership test covers every block the allocator hands memory out from', floor=20)
     run.rule('R-OWN.pre', 'a composable deallocation refuses on size/alignment grounds only what its allocation sibling refuses', floor=10)
     run.rule('R-OWN-IVL', 'ownership tests are half-open intervals', floor=2)
+    run.rule('R-OWN.reseat', 'the stack hands out memory only from blocks its ownership test asks about: cursor and arena change together on every exit', floor=4)
     run.rule('R-FWD', 'fallback/segregator: default first, fallback second, acquire/release siblings agree (nesting depth 3)', floor=40)
     run.rule('W-iface', 'composable interface completeness (compile-time)', floor=1)
     run.explanation = ('"returns true and releases iff it handed the memory out" is decided as: release and `true` only behind the '
@@ -391,6 +392,10 @@ def run(run):
             run.broke('ownership interval functions not found [%s]' % cfg)
         if check_pre_rejection(run, db) < 6:
             run.broke('composable siblings not found [%s]' % cfg)
+        # the ownership test asks the arena, the memory is handed out through the stack cursor: the two must name the same blocks on
+        # every exit (shared rule R-UNWIND.reseat of C06), otherwise memory is served that owns() does not recognise
+        from rules import c06
+        c06.check_reseat(run, db, rule='R-OWN.reseat')
         if check_scope_chain(run, db) < 2:
             run.broke('memory_arena::owns / memory_block_stack::owns not found [%s]' % cfg)
         if check_fallback(run, db) < 20:
